@@ -179,6 +179,14 @@ def run(tier):
     for rep in range(1 if tier == "quick" else 15):
         for kind in sorted(set(netgen.MULTI_KINDS)):
             jobs.append({"family": "multi_subgraph:" + kind, "seed": "c12m-%d-%d" % (vlib.seed(), rep), "args": compiles.config_args(rng), "capture": False})
+    # every allocator with CPU tensor alignments above 16 on networks without buffered weights (pooling / elementwise / CPU
+    # tails): the padding the allocator inserts below a range must show in the reported size and the scratch tensor
+    al_fams = ["single:maxpool", "ew_dag", "mixed_cpu", "multi_input", "single:avgpool", "single:add", "mixed_cpu", "ew_dag"]
+    for rep in range(16 if tier == "quick" else 300):
+        jobs.append({"family": al_fams[rep % len(al_fams)], "seed": "c12a-%d-%d" % (vlib.seed(), rep),
+                     "args": ["--accelerator-config", ["ethos-u55-128", "ethos-u65-256"][rep % 2], "--tensor-allocator",
+                              ["Greedy", "Greedy", "LinearAlloc", "HillClimb"][rep % 4], "--cpu-tensor-alignment", ["64", "256", "128"][rep % 3]],
+                     "capture": False})
     # 16-bit producers, a type-narrowing QUANTIZE and 8-bit consumers in one cascade (rolling buffers whose element size
     # differs between producer and consumer), at the SRAM budgets that make the scheduler cascade them
     for rep in range(6 if tier == "quick" else 120):
